@@ -321,3 +321,112 @@ def rule_prec(crate, repo):
     out.floor("levels", len(depth), 17)
     out.floor("ordered_pairs", n_pairs, 16)
     return out
+
+
+# ---------------------------------------------------------------- R4b: operator spelling round trip
+BINOP = "crate::ast::BinaryOperator"
+
+
+def printer_table(crate):
+    """{BinaryOperator variant: printed spelling} from <BinaryOperator as PrettyPrint>::pretty_print"""
+    fns = [b for d, b in crate.hir.items() if d.endswith("::pretty_print") and (b.get("impl_self") or "").endswith("BinaryOperator")]
+    if not fns:
+        return None, None
+    fn = fns[0]
+    table = {}
+    for m in walk(fn["body"]):
+        if m.get("k") != "Match" or str(m.get("src")) != "Normal":
+            continue
+        rows = {}
+        for a in m["arms"]:
+            vs = None
+            from hirlib import pat_variants
+
+            vs = pat_variants(a["pat"], BINOP)
+            body = peel_refs(a["body"])
+            if vs and body.get("k") == "Lit" and body["lit"].get("lk") == "str":
+                for v in vs:
+                    rows[v] = body["lit"]["v"]
+        if len(rows) > len(table):
+            table = rows
+    return fn, table
+
+
+def parser_operator_map(crate):
+    """exact: {TokenKind: BinaryOperator} from parse_binop calls (closure `|_| Op` or `match matched { Kind => Op }`);
+    loose: {TokenKind: {ops}} for level functions that match a kind and construct `op: BinaryOperator::X` themselves."""
+    exact, loose = {}, {}
+    for d, b in crate.hir.items():
+        if not d.startswith(PARSER):
+            continue
+        binops = [n for n in walk(b["body"]) if n.get("k") == "MethodCall" and (callee(n) or "") == PARSER + "parse_binop"]
+        for n in binops:
+            kinds = kinds_in(n["args"][1])
+            cl = peel(n["args"][2])
+            if cl.get("k") != "Closure":
+                continue
+            arms = {}
+            for m in walk(cl["body"]):
+                if m.get("k") == "Match" and str(m.get("src")) == "Normal":
+                    for a in m["arms"]:
+                        ks = kinds_in(a["pat"])
+                        v = ctor_variant(a["body"])
+                        if ks and v and v[0] == BINOP:
+                            for k in ks:
+                                arms[k] = v[1]
+            if arms:
+                for k in kinds:
+                    if k in arms:
+                        exact[k] = arms[k]
+            else:
+                v = ctor_variant(cl["body"])
+                if v and v[0] == BINOP:
+                    for k in kinds:
+                        exact[k] = v[1]
+        if not binops:
+            ops = set()
+            for n in walk(b["body"]):
+                if n.get("k") == "Path" and n["res"].get("adt") == BINOP and n["res"].get("variant"):
+                    ops.add(n["res"]["variant"])
+            ks = set()
+            for n in walk(b["body"]):
+                if n.get("k") == "MethodCall" and (callee(n) or "") in (PARSER + "match_exact", PARSER + "match_any", PARSER + "match_exact_beyond_linebreaks"):
+                    ks |= kinds_in(n["args"][1:])
+            for k in ks:
+                loose.setdefault(k, set()).update(ops)
+    return exact, loose
+
+
+def rule_oprt(crate):
+    out = RuleOut("OPRT", "every operator spelling the printer emits is lexed to a token the parser maps back to the same operator")
+    fn, table = printer_table(crate)
+    if not fn or not table:
+        out.error("anchor missing: <BinaryOperator as PrettyPrint>::pretty_print spelling table")
+        return out
+    f = crate.file_of(fn)
+    tok = tokenizer_map(crate)
+    exact, loose = parser_operator_map(crate)
+    adt = crate.adt(BINOP)
+    for v in [x["name"] for x in adt["variants"]]:
+        key = "binary:%s" % v
+        if v not in table:
+            out.violation(key, f, fn["line"], "the printer has no spelling for BinaryOperator::%s" % v)
+            continue
+        sp = table[v]
+        kind = tok.get(sp)
+        if kind is None:
+            out.violation(key, f, fn["line"], "BinaryOperator::%s is printed as `%s`, which the tokenizer does not produce as one operator token" % (v, sp))
+            continue
+        if kind in exact:
+            if exact[kind] == v:
+                out.ok(key, f, fn["line"], "`%s` -> TokenKind::%s -> BinaryOperator::%s" % (sp, kind, v))
+            else:
+                out.violation(key, f, fn["line"], "BinaryOperator::%s is printed as `%s`; the tokenizer reads that as TokenKind::%s, which the parser turns into BinaryOperator::%s: the echoed form means something else" % (v, sp, kind, exact[kind]))
+        elif v in loose.get(kind, set()):
+            out.ok(key, f, fn["line"], "`%s` -> TokenKind::%s -> matched by a level function that builds BinaryOperator::%s" % (sp, kind, v))
+        else:
+            out.violation(key, f, fn["line"], "BinaryOperator::%s is printed as `%s` (TokenKind::%s), but no parser level maps that token to %s" % (v, sp, kind, v))
+    out.analysed = {"printed_operators": len(table), "tokenizer_spellings": len(tok), "parser_exact": len(exact), "parser_loose": len(loose)}
+    out.floor("printed_operators", len(table), 14)
+    out.floor("parser_exact", len(exact), 12)
+    return out
